@@ -149,6 +149,20 @@ PROPS["C08"] = {
 }
 
 
+PROPS["C09"] = {
+    "module": "PropC09",
+    "theorems": ["C09_restricted_verdict_agrees", "C09_restricted_run", "C09_probe_ignores_filters", "C09_missing_is_explained"],
+    "runs": [detect_run("C09", 200, 2500, maxq=4000, maxt=20000)],
+    "search": {"level": "detect", "args": ["--focus", "C09", "--n", "800", "--max-len", "5000"]},
+    "timeout": 1700,
+    "rule": DETECT_RULE + "; focus C09: for every case every reported encoding is re-run alone (same settings, include=[E]) and "
+            "compared on chaos bits, coherence list, BOM flag and text; and all 41 encodings are probed alone (fall-back off) to rebuild "
+            "the expected set of reported encodings from the stand-alone verdicts, the hint rule and the similarity bookkeeping",
+    "assumptions": [],
+    "trusted": [],
+}
+
+
 def _tok(line):
     return line.split(" ")
 
